@@ -75,9 +75,14 @@ def to_lean(g):
         elif k == "rep":
             if e["op"] == "#":
                 x = e["x"]
-                if x["k"] not in ("seq", "alt") or x.get("sup") or len(x["xs"]) < 2:
-                    raise Unsupported("# operand")
-                d = {"k": "unord", "xs": [ex(y) for y in x["xs"]], "sep": sep(e.get("sep")), "eol": bool(e.get("eol"))}
+                if x["k"] in ("seq", "alt"):
+                    # `(a b)#` / `(a | b)#`: the elements of the group; a suppressed group cannot be written as operand
+                    if x.get("sup") or len(x["xs"]) < 2:
+                        raise Unsupported("# operand")
+                    xs = x["xs"]
+                else:
+                    xs = [x]          # any other operand is the only element of the group
+                d = {"k": "unord", "xs": [ex(y) for y in xs], "sep": sep(e.get("sep")), "eol": bool(e.get("eol"))}
                 if e.get("sup"):
                     d["sup"] = True
             else:
@@ -209,6 +214,8 @@ class Deriver(G.Deriver):
             return self.d(self.rules[e["name"]]["body"], depth + 1)
         if low and k == "alt":
             return self.d(min(e["xs"], key=self.ml), depth)
+        if k == "rep" and e["op"] == "#" and e["x"]["k"] not in ("seq", "alt"):
+            return self.d(e["x"], depth)          # one-element group
         if low and k in ("rep", "asgn") and e["op"] in ("?", "*", "?=", "*="):
             return []
         if low and k in ("rep", "asgn") and e["op"] in ("+", "+="):
@@ -230,6 +237,34 @@ def sentences(g, rng, n_derived, n_mutated):
 NULLABLE_RE = {r"q?"}
 
 
+def unord_elems(e):
+    """elements of the unordered group `x#`"""
+    x = e["x"]
+    return x["xs"] if x["k"] in ("seq", "alt") and not x.get("sup") else [x]
+
+
+def single_unord(g, rng):
+    """`#` applied to a single element (assignment, match, reference, repetition): the generator of
+    gen_grammar only writes `#` after groups of >= 2 elements; one in three of them loses all but its first element."""
+    import copy
+
+    g = copy.deepcopy(g)
+
+    def walk(e):
+        if isinstance(e, dict):
+            if e.get("k") == "rep" and e.get("op") == "#" and e["x"]["k"] == "seq" and not e["x"].get("sup") and rng.chance(0.33):
+                e["x"] = e["x"]["xs"][0]
+            for v in list(e.values()):
+                walk(v)
+        elif isinstance(e, list):
+            for v in e:
+                walk(v)
+
+    for r in g["rules"]:
+        walk(r["body"])
+    return g
+
+
 def falsy(e, fr):
     """generator-side copy of Tx.falsy (Doc.lean); the authoritative DocFragment flag comes from the Lean driver"""
     if e.get("sup"):
@@ -249,7 +284,7 @@ def falsy(e, fr):
         if e["op"] == "+":
             return falsy(e["x"], fr)
         if e["op"] == "#":
-            return all(falsy(x, fr) for x in e["x"]["xs"])
+            return all(falsy(x, fr) for x in unord_elems(e))
         return True
     if k == "asgn":
         return falsy(e["rhs"], fr) if e["op"] in ("=", "+=") else True
@@ -294,11 +329,14 @@ def make_productive(g, rng):
                     e["x"] = guard(e["x"])
                 elif e["op"] == "#":
                     xs = []
-                    for x in e["x"]["xs"]:
+                    for x in unord_elems(e):
                         opt = (x["k"] == "rep" and x["op"] == "?" and not x.get("sup") and not falsy(x["x"], fr)) or \
                               (x["k"] == "asgn" and x["op"] == "?=" and not falsy(x["rhs"], fr))
                         xs.append(x if opt else guard(x))
-                    e["x"]["xs"] = xs
+                    if e["x"]["k"] in ("seq", "alt") and not e["x"].get("sup"):
+                        e["x"]["xs"] = xs
+                    else:
+                        e["x"] = xs[0]      # a guarded single element becomes the group `(lit x)#`
             elif k == "asgn":
                 if e["op"] in ("+=", "*=", "?=") and falsy(e["rhs"], fr):
                     e["rhs"] = {"k": "ref", "name": "INT"}
@@ -612,6 +650,7 @@ class Prop(Check):
             g = gg.grammar()
             if r.chance(0.2):
                 g = name_a_rule_sep(g, r)
+            g = single_unord(g, r)
             if style == "doc":
                 g = make_productive(g, r)
             cfg = r.choice(CFGS)
